@@ -3,7 +3,7 @@
    Spec.v (JsonStd) is the reference; Model.v mirrors /repo/codec after the
    repairs F09-1 (readFloat counters) and F09-2 (lone surrogates). *)
 From Coq Require Import List NArith ZArith Bool.
-From Verif Require Import Gen.Consts Base.Outcome C09.Spec C09.Model C09.ProofsStr C09.ProofsNum.
+From Verif Require Import Gen.Consts Base.Outcome C09.Spec C09.Model C09.ProofsStr C09.ProofsNum C09.ProofsUint C09.ProofsQuote.
 Import ListNotations.
 
 (* readFloat on the text of ANY literal of the JSON number grammar, for each of the
@@ -41,6 +41,40 @@ Theorem C09_unescape_refuted :
 Proof. exact unescape_refuted. Qed.
 Print Assumptions C09_unescape_refuted.
 
+(* quoteStr (json.go, both settings of HTMLCharsAsIs), on ANY Go string (valid UTF-8
+   or not), writes a string literal of the grammar, and that literal denotes
+   utf8_sanitise s (each byte that starts no well-formed sequence becomes U+FFFD):
+   what encoding/json.Unmarshal returns for it.  (valid_string_literal is the
+   existential below; the executable reader Spec.unescape is compared with it on
+   every harness case, CQuote, not by a theorem.) *)
+Theorem C09_quote : forall (h : bool) (s : list N),
+  exists l, forallb wf_item l = true /\ quoteStr h s = render_lit l /\ denote l = utf8_sanitise s.
+Proof. exact quote_lemma. Qed.
+Print Assumptions C09_quote.
+
+(* and the string decoder of /repo reads quoteStr's output back to the same string,
+   consuming exactly it (the known-finding class never occurs in quoteStr output) *)
+Theorem C09_quote_selfread : forall (h : bool) (s tl : list N),
+  dec_string (quoteStr h s ++ tl) = Ok (utf8_sanitise s, tl).
+Proof. exact quote_selfread. Qed.
+Print Assumptions C09_quote_selfread.
+
+(* jsonEncodeUint writes, for every u < 2^64, an int literal of the grammar (digits, no
+   leading zero) whose value is u, and parseUint64_simple reads it back as u *)
+Theorem C09_uint : forall u : Z, (0 <= u < 2 ^ 64)%Z ->
+  (exists ds, jsonEncodeUint false false u = map dchar ds /\ wf_int ds = true /\ ival ds = u) /\
+  parseUint64_simple (jsonEncodeUint false false u) = (u, true).
+Proof. exact (fun u H => conj (uint_format u H) (uint_roundtrip u H)). Qed.
+Print Assumptions C09_uint.
+
+(* sign and quotes (IntegerAsString, MapKeyAsString) are added around those digits *)
+Theorem C09_uint_decorated : forall (neg quotes : bool) (u : Z),
+  jsonEncodeUint neg quotes u =
+  (if quotes then [34%N] else []) ++ (if neg then [45%N] else []) ++ jsonEncodeUint false false u
+  ++ (if quotes then [34%N] else []).
+Proof. exact uint_decorated. Qed.
+Print Assumptions C09_uint_decorated.
+
 (* non-vacuity *)
 Example C09_readfloat_nonvacuous :
   (* 0.<250 zeros>1 : the F09-1 witness, now the slow path; 1234.5e-3 exact *)
@@ -55,3 +89,17 @@ Example C09_unescape_nonvacuous :
   forallb wf_item l = true /\ nopin l = true /\
   dec_string (render_lit l ++ [44%N]) = Ok ([97; 239; 191; 189; 98; 10; 240; 157; 132; 158; 239; 191; 189]%N, [44%N]).
 Proof. vm_compute. repeat apply conj; reflexivity. Qed.
+
+Example C09_quote_nonvacuous :
+  (* "<" LF e-acute 0xFF U+2028 *)
+  quoteStr false [60; 10; 195; 169; 255; 226; 128; 168]%N
+  = [34; 92;117;48;48;51;99; 92;110; 195;169; 92;117;70;70;70;68; 92;117;50;48;50;56; 34]%N
+  /\ quoteStr true [60%N] = [34; 60; 34]%N
+  /\ utf8_sanitise [60; 10; 195; 169; 255; 226; 128; 168]%N = [60; 10; 195; 169; 239; 191; 189; 226; 128; 168]%N.
+Proof. vm_compute. repeat apply conj; reflexivity. Qed.
+
+Example C09_uint_nonvacuous :
+  jsonEncodeUint true true 18446744073709551615
+  = [34; 45; 49;56;52;52;54;55;52;52;48;55;51;55;48;57;53;53;49;54;49;53; 34]%N
+  /\ parseUint64_simple (jsonEncodeUint false false 18446744073709551615) = (18446744073709551615%Z, true).
+Proof. vm_compute. split; reflexivity. Qed.
